@@ -296,8 +296,9 @@ inductive Res where
   | constant (q : Q) (lit : Lit)
   /-- `Expression::FunctionCall(Name::qualified(k, q), args)` of a user defined function -/
   | call (k : Key) (q : Q)
-  /-- call of an undefined function (reduced to the literal 0 by `undefined_function_reducer`) -/
-  | undefCall
+  /-- call of an undefined function: reduced by `undefined_function_reducer` to the literal 0, or to the
+  empty string when the name carries the `$` suffix (`isStr`) -/
+  | undefCall (isStr : Bool)
   deriving DecidableEq, Repr, Inhabited
 
 inductive Mode where
@@ -442,7 +443,7 @@ def resolveCall (c : Ctx) (k : Key) (sfx : Option Q) (args : List Bool) : Except
   else
     match c.funcQ k with
     | some fq => if sfxOk sfx fq then .ok (.call k fq) else .error .duplicateDefinition
-    | none => .ok .undefCall
+    | none => .ok (.undefCall (sfx.getD (defaultQ c.deft k) == Q.str))
 
 /-- Port of the statement converters (`on_assignment`, `on_const`, DIM, PRINT, sub call). -/
 def convStmt (c : Ctx) (s : Stmt) : Except LintErr (Ctx × RStmt) :=
@@ -592,7 +593,7 @@ def postFnExpr (funcs : List (Key × (Q × List Q))) (r : Res) (args : List Bool
     match assocFind funcs k with
     | some sig => lintCallArgs args sig.2
     | none => .ok ()
-  | .undefCall => if args.any id then .error .argumentTypeMismatch else .ok ()   -- `handle_undefined_function`
+  | .undefCall _ => if args.any id then .error .argumentTypeMismatch else .ok ()   -- `handle_undefined_function`
   | _ => .ok ()
 
 def postFnStmt (funcs : List (Key × (Q × List Q))) : RStmt → Except LintErr Unit
@@ -720,7 +721,7 @@ def exec (prog : List RItem) : Nat → List RStmt → Bool → Mem → Option Me
       match r with
       | .var k q home => exec prog fuel rest g { m with out := m.out ++ [readVar m g k q home] }
       | .constant q l => exec prog fuel rest g { m with out := m.out ++ [⟨.lit l, q⟩] }
-      | .undefCall => exec prog fuel rest g { m with out := m.out ++ [⟨.default, Q.int⟩] }
+      | .undefCall isStr => exec prog fuel rest g { m with out := m.out ++ [⟨.default, if isStr then Q.str else Q.int⟩] }
       | .call k q =>
         match findFunc prog k with
         | none => none
